@@ -153,3 +153,21 @@ Lemma exO_conflict_l :
   code_of (prepare_request iord_id ord_id exO_defs_conflict exO_rq1) = 3 /\
   code_of (prepare_request iord_id ord_id exO_defs_protected exO_rq1) = 0.
 Proof. vm_compute. split; reflexivity. Qed.
+
+(* two declared inputs fail in different ways (a: conflicting value, code 3; b: the consumer's group key is a context key of the
+   input, code 4): the error that is reported is that of the input which the set input_features() yields first *)
+Definition exO_defs_two : list odef :=
+  [ {| od_name := "a"; od_grp := 1; od_cfw := 1; od_ins := [] |};
+    {| od_name := "b"; od_grp := 1; od_cfw := 1; od_ins := [] |};
+    {| od_name := "f1"; od_grp := 2; od_cfw := 1;
+       od_ins := [ex_in "a" [(KStr "k1", VInt 2%Z)];
+                  {| oi_name := "b"; oi_opt := {| og := []; oc := [(KStr "k1", VInt 1%Z)]; opk := [] |}; oi_ty := None |}] |} ].
+Definition iord_rev : nat -> list oin -> list oin := fun _ l => rev l.
+Lemma exO_two_errors_l :
+  odefs_ok exO_defs_two exO_rq1 /\ decl_ok exO_defs_two exO_rq1 /\ one_cfw exO_defs_two /\ iord_ok iord_id /\ iord_ok iord_rev /\
+  collect iord_id exO_defs_two exO_rq1 = inr 3 /\ collect iord_rev exO_defs_two exO_rq1 = inr 4.
+Proof.
+  split; [apply odefs_okb_sound; vm_compute; reflexivity|]. split; [apply decl_okb_sound; vm_compute; reflexivity|].
+  split; [apply one_cfwb_sound; vm_compute; reflexivity|]. split; [intros k l; apply Permutation_refl|].
+  split; [intros k l; apply Permutation_sym; apply Permutation_rev|]. split; vm_compute; reflexivity.
+Qed.
